@@ -170,25 +170,93 @@ theorem members_read : ∀ (ms : List Member), (∀ m, m ∈ ms → WFMember W m
 
 /-! ## Structs -/
 
-def WFStruct (s : StructDef) : Prop := ∀ m, m ∈ s.members → WFMember W m
+/-- a base type the parser reads back: the name is no modifier word, the template arguments are `WFTArgs` -/
+def WFBase (b : BaseTy) : Prop := modBeforeStep (.id b.2.1) = .stop ∧ WFTArgs W b.2.2
+
+def hasLtBases : List BaseTy → Bool
+  | [] => false
+  | b :: r => hasLtTArgs b.2.2 || hasLtBases r
+
+def WFStruct (s : StructDef) : Prop := (∀ b, b ∈ s.bases → WFBase W b) ∧ ∀ m, m ∈ s.members → WFMember W m
+
+theorem afterTy_comma : AfterTy (.p .Comma) :=
+  ⟨rfl, (by intro h; cases h), (by intro h; cases h), rfl, (by intro h; cases h)⟩
+theorem afterTy_lbrace : AfterTy (.p .LeftBrace) :=
+  ⟨rfl, (by intro h; cases h), (by intro h; cases h), rfl, (by intro h; cases h)⟩
+
+/-- the base types of a struct (printed since 2e907a1) in front of the opening brace -/
+theorem bases_read : ∀ (bs : List BaseTy), bs ≠ [] → (∀ b, b ∈ bs → WFBase W b) → ∀ rest,
+    (hasLtBases bs = true → TmplFree (toks (fmtBaseList bs) ++ .p .LeftBrace :: rest) = true) →
+    ∃ N, ∀ f, N ≤ f → parseBases W f (toks (fmtBaseList bs) ++ .p .LeftBrace :: rest) = some (bs, .p .LeftBrace :: rest)
+  | [], h, _, _, _ => absurd rfl h
+  | [(mods, n, targs)], _, hw, rest, hsafe => by
+    obtain ⟨hstop, hwT⟩ := hw _ List.mem_cons_self
+    have htoks : toks (fmtBaseList [(mods, n, targs)]) ++ .p .LeftBrace :: rest =
+        mods.map modTok ++ (.id n :: (toks (fmtTArgs targs false) ++ .p .LeftBrace :: rest)) := by
+      simp [fmtBaseList, toks_fmtTy]
+    rw [htoks] at hsafe ⊢
+    obtain ⟨N, h⟩ := ty_reads W mods n targs false hstop hwT (.p .LeftBrace) rest afterTy_lbrace
+      (fun hl => tmplFree_suffix (by suffix_tac) (hsafe (by simp [hasLtBases, hl])))
+    refine ⟨N + 1, fun f hf => ?_⟩
+    obtain ⟨f', rfl, hf'⟩ := succ_of_pos hf
+    unfold parseBases
+    rw [h f' hf']
+  | (mods, n, targs) :: c :: r, _, hw, rest, hsafe => by
+    obtain ⟨hstop, hwT⟩ := hw _ List.mem_cons_self
+    have htoks : toks (fmtBaseList ((mods, n, targs) :: c :: r)) ++ .p .LeftBrace :: rest =
+        mods.map modTok ++ (.id n :: (toks (fmtTArgs targs true) ++
+          .p .Comma :: (toks (fmtBaseList (c :: r)) ++ .p .LeftBrace :: rest))) := by
+      simp [fmtBaseList, toks_fmtTy, comma, pp]
+    rw [htoks] at hsafe ⊢
+    obtain ⟨N1, h1⟩ := ty_reads W mods n targs true hstop hwT (.p .Comma) _ afterTy_comma
+      (fun hl => tmplFree_suffix (by suffix_tac) (hsafe (by simp [hasLtBases, hl])))
+    obtain ⟨N2, h2⟩ := bases_read (c :: r) (by simp) (fun b hb => hw b (List.mem_cons_of_mem _ hb)) rest
+      (fun hl => tmplFree_suffix (by suffix_tac) (hsafe (by
+        simp only [hasLtBases, Bool.or_eq_true] at hl ⊢
+        exact Or.inr hl)))
+    refine ⟨max N1 N2 + 1, fun f hf => ?_⟩
+    obtain ⟨f', rfl, hf'⟩ := succ_of_pos hf
+    unfold parseBases
+    rw [h1 f' (by omega)]
+    simp only [h2 f' (by omega)]
 
 def structToks (s : StructDef) : List Tok :=
-  .p .Struct :: .id s.name :: .p .LeftBrace :: (membersToks s.members ++ [.p .RightBrace, .p .Semicolon])
+  .p .Struct :: .id s.name :: ((if s.bases.isEmpty then [] else .p .Colon :: toks (fmtBaseList s.bases)) ++
+    (.p .LeftBrace :: (membersToks s.members ++ [.p .RightBrace, .p .Semicolon])))
 
 theorem toks_fmtStruct (s : StructDef) : toks (fmtStruct s) = structToks s := by
-  simp [fmtStruct, structToks, toks_append, toks_fmtMembers, kw, pp, semi, toks]
+  cases hb : s.bases.isEmpty <;>
+    simp [fmtStruct, fmtBases, structPrintsBaseTypes, structToks, hb, toks_append, toks_fmtMembers, kw, pp, semi, toks]
 
 theorem struct_reads (s : StructDef) (hw : WFStruct W s) (rest : List Tok)
-    (hsafe : hasLtMembers s.members = true → TmplFree (structToks s ++ rest) = true) :
+    (hsafe : (hasLtBases s.bases || hasLtMembers s.members) = true → TmplFree (structToks s ++ rest) = true) :
     ∃ N, ∀ f, N ≤ f → parseStruct W f (structToks s ++ rest) = .ok s rest := by
-  have htoks : structToks s ++ rest = .p .Struct :: .id s.name :: .p .LeftBrace ::
-      (membersToks s.members ++ .p .RightBrace :: .p .Semicolon :: rest) := by
-    simp [structToks]
-  rw [htoks] at hsafe ⊢
-  obtain ⟨N, h⟩ := members_read W s.members hw (.p .Semicolon :: rest)
-    (fun hl => tmplFree_suffix (by suffix_tac) (hsafe hl))
-  refine ⟨N, fun f hf => ?_⟩
-  unfold parseStruct
-  simp only [h f hf]
+  obtain ⟨hwb, hwm⟩ := hw
+  obtain ⟨name, bases, members⟩ := s
+  simp only [] at hwb hwm hsafe ⊢
+  cases bases with
+  | nil =>
+    have htoks : structToks ⟨name, [], members⟩ ++ rest = .p .Struct :: .id name :: .p .LeftBrace ::
+        (membersToks members ++ .p .RightBrace :: .p .Semicolon :: rest) := by
+      simp [structToks]
+    rw [htoks] at hsafe ⊢
+    obtain ⟨N, h⟩ := members_read W members hwm (.p .Semicolon :: rest)
+      (fun hl => tmplFree_suffix (by suffix_tac) (hsafe (by simp [hl])))
+    refine ⟨N, fun f hf => ?_⟩
+    unfold parseStruct
+    simp only [h f hf]
+  | cons b bs =>
+    have htoks : structToks ⟨name, b :: bs, members⟩ ++ rest = .p .Struct :: .id name :: .p .Colon ::
+        (toks (fmtBaseList (b :: bs)) ++ .p .LeftBrace ::
+          (membersToks members ++ .p .RightBrace :: .p .Semicolon :: rest)) := by
+      simp [structToks]
+    rw [htoks] at hsafe ⊢
+    obtain ⟨N1, h1⟩ := bases_read W (b :: bs) (by simp) hwb (membersToks members ++ .p .RightBrace :: .p .Semicolon :: rest)
+      (fun hl => tmplFree_suffix (by suffix_tac) (hsafe (by simp [hl])))
+    obtain ⟨N2, h2⟩ := members_read W members hwm (.p .Semicolon :: rest)
+      (fun hl => tmplFree_suffix (by suffix_tac) (hsafe (by simp [hl])))
+    refine ⟨max N1 N2, fun f hf => ?_⟩
+    unfold parseStruct
+    simp only [h1 f (by omega), h2 f (by omega)]
 
 end RsslVerif.Lemmas.DefRT
